@@ -1148,20 +1148,33 @@ impl CodeGenerator {
                         // Enter base case into iterative scope
                         let base_in_scope = base_collection.enter(inner);
 
-                        // Combine base + recursive results
-                        let combined = base_in_scope.concat(recursive_result);
-
                         // Apply deduplication strategy based on aggregation mode
                         let next = if let Some((ref group_by, agg_col, is_min)) = agg_in_loop {
                             // Min/Max aggregation-in-loop: instead of distinct(), apply
                             // reduce() with min/max logic. This prunes non-optimal paths
                             // at each iteration, reducing intermediate data volume.
+                            //
+                            // The stripped body yields the aggregate's *input* rows. Bring
+                            // them into the aggregate's output layout (group columns, then
+                            // the aggregated value) - the layout of the base rows and of
+                            // the relation itself - before combining and grouping.
                             let group_by = group_by.clone();
-                            combined
+                            let key_len = group_by.len();
+                            let agg_col_out = key_len;
+                            let projected = recursive_result.map(move |tuple| {
+                                let mut vals: Vec<Value> = group_by
+                                    .iter()
+                                    .map(|&i| tuple.get(i).cloned().unwrap_or(Value::Null))
+                                    .collect();
+                                vals.push(tuple.get(agg_col).cloned().unwrap_or(Value::Null));
+                                Tuple::new(vals)
+                            });
+                            let agg_col = agg_col_out;
+                            base_in_scope
+                                .concat(projected)
                                 .map(move |tuple| {
-                                    let key: Vec<Value> = group_by
-                                        .iter()
-                                        .map(|&i| tuple.get(i).cloned().unwrap_or(Value::Null))
+                                    let key: Vec<Value> = (0..key_len)
+                                        .map(|i| tuple.get(i).cloned().unwrap_or(Value::Null))
                                         .collect();
                                     (Tuple::new(key), tuple)
                                 })
@@ -1187,7 +1200,9 @@ impl CodeGenerator {
                                 .map(|(_key, tuple)| tuple)
                         } else {
                             // Standard deduplication with distinct
-                            combined.distinct_core::<R>()
+                            base_in_scope
+                                .concat(recursive_result)
+                                .distinct_core::<R>()
                         };
 
                         // Set variable for next iteration
@@ -1197,10 +1212,16 @@ impl CodeGenerator {
                         next.leave()
                     });
 
-                    // Capture results
+                    // Capture results. The in-loop aggregation retracts a group's row
+                    // when a better one is found in a later round: consolidate so that
+                    // only rows that are present at the end are captured.
                     result
+                        .consolidate()
                         .inner
-                        .inspect(move |(data, _time, _diff)| {
+                        .inspect(move |(data, _time, diff)| {
+                            if diff.to_count() <= 0 {
+                                return;
+                            }
                             let mut guard = results_clone.lock();
                             if result_limit == 0 || guard.len() < result_limit {
                                 guard.push(data.clone());
